@@ -285,7 +285,11 @@ fn decorate(rng: &mut Rng, text: &str, pool: &[char]) -> String {
         if rng.chance(1, 40) {
             // regions the formatter leaves alone
             if rng.chance(1, 2) {
-                out.push_str("// pasfmt off\nKeep   :=   1 ;\n// pasfmt on\n");
+                out.push_str("// pasfmt off\nKeep   :=   1 ;\n");
+                // (sometimes the region is never switched on again)
+                if !rng.chance(1, 3) {
+                    out.push_str("// pasfmt on\n");
+                }
             } else {
                 out.push_str("asm\n  MOV   EAX,  EBX\nend;\n");
             }
